@@ -38,7 +38,10 @@ class C14(Harness):
     MAXNEST = 2
 
     def configs(self, tier):
-        return [{'slice': s} for s in ('base', 'pif', 'nip', 'refs', 'watch', 'named')]
+        out = [{'slice': s} for s in ('base', 'pif', 'nip', 'refs', 'watch', 'named')]
+        # a watcher of the `constant` attribute itself that raises at its k-th invocation (while a block unlocks or re-locks the Parameters)
+        out += [{'slice': 'slotboom', 'boom_at': b} for b in ([1], [2], [3], [1, 2], [2, 4])]
+        return out
 
     def bounds(self, tier):
         return {'depth': 4 if tier == 'quick' else 5, 'nesting': self.MAXNEST, 'slices': 6}
@@ -46,7 +49,8 @@ class C14(Harness):
     def depth(self, tier, cfg):
         return 4 if tier == 'quick' else 5
 
-    def fresh(self, sl):
+    def fresh(self, sl, cfg=None):
+        cfg = cfg or {}
         import param
         reset_globals()
         objs = {'c0': [0], 'c9': [9], 'n1': [1], 'n2': [2], 'n3': [3]}
@@ -84,6 +88,15 @@ class C14(Harness):
             model['held'][0]['rr'] = model['held'][1]['rr'] = 0
             model['link'] = [None, 'S']
             model['src'] = {'S': 'n1', 'T': 'c9'}
+        if sl == 'slotboom':
+            calls = {'n': 0}
+
+            def slot_watcher(event):
+                calls['n'] += 1
+                if calls['n'] in hook['boom_at']:
+                    raise Boom('watcher of the constant attribute')
+            hook['boom_at'] = list(cfg.get('boom_at', []))
+            i0.param.watch(slot_watcher, ['c', 'cn'], what='constant')
         if sl in ('watch', 'refs'):
             def attempt(inst, n, tok, how):
                 i = 0 if inst is w['i'][0] else 1
@@ -112,6 +125,8 @@ class C14(Harness):
                         ['iset', i, 'rr', 'refS'], ['iset', i, 'cr', 'refskip']]
             elif sl == 'watch':
                 ops += [['pset', i], ['trigger', i, 'p'], ['trigger', i, 'c'], ['iset', i, 'c', 'n3']]
+            elif sl == 'slotboom':
+                ops += [['iset', i, 'c', 'n1'], ['iset', i, 'cn', 'n1']]
             else:
                 ops += [['iset', i, 'c', 'n1'], ['iset', i, 'c', 'same'], ['iset', i, 'r', 8], ['iset', i, 'name', 'zz'], ['iupdate', i, 'c', 'n2'], ['touch', i, 'c'],
                         ['iset', i, 'cn', 'n1']]
@@ -123,7 +138,7 @@ class C14(Harness):
             ops += [['cset', 'A', 'name', 'zn'], ['cset', 'B', 'name', 'zm']]
         if sl == 'refs':
             ops += [['src', 'S', 'n2'], ['src', 'S', 'n3'], ['src', 'T', 'n2'], ['src', 'T', 'n3']]
-        elif sl == 'watch':
+        elif sl in ('watch', 'slotboom'):
             pass
         else:
             ops += [['cset', 'A', 'c', 'n3'], ['cset', 'B', 'c', 'n3'], ['cset', 'A', 'r', 9], ['cset', 'B', 'r', 9], ['cset', 'A', 'cn', 'n2'], ['cset', 'B', 'cn', 'n2']]
@@ -133,9 +148,32 @@ class C14(Harness):
             ops.append(['closeall'])          # leave every open block, innermost first
         return ops
 
+    def check_library_objects(self, param):
+        """the library's own Parameterized classes that change one of their constants by an official method (param.Time: time_type through
+        __call__): afterwards the constant is constant again, on the class and on the instance"""
+        import fractions
+        vs = []
+        t = param.Time()
+        for prepare in ('untouched', 'own-parameter'):
+            t = param.Time()
+            if prepare == 'own-parameter':
+                t.param['time_type']          # the instance has its own Parameter copy before the method is used
+            t(5, time_type=float)
+            try:
+                t.time_type = fractions.Fraction
+                vs.append(V('rebound-outside-edit', 'param.Time: after t(5, time_type=float) a plain t.time_type = Fraction was accepted (%s)' % prepare,
+                            op='Time.__call__', name='time_type', value='new', slice='base'))
+            except TypeError:
+                pass
+            for label, pobj in (('class', param.Time.param['time_type']), ('instance', t.param['time_type'])):
+                if not pobj.constant:
+                    vs.append(V('constant-flag', 'param.Time: %s-level Parameter time_type is not constant after t(5, time_type=float) (%s)' % (label, prepare),
+                                level=label, name='time_type', after='Time.__call__'))
+        return vs
+
     def execute(self, cfg, history):
         sl = cfg.get('slice', 'base')
-        w, model = self.fresh(sl)
+        w, model = self.fresh(sl, cfg)
         param = w['param']
         objs = w['objs']
         vs = []
@@ -148,6 +186,8 @@ class C14(Harness):
                 if v is o:
                     return k
             return repr(o)
+        if not history and sl == 'base':
+            vs += self.check_library_objects(param)
         for step, op in enumerate(history):
             last = step == len(history) - 1
             k = op[0]
@@ -212,8 +252,15 @@ class C14(Harness):
                     e = Boom('body')
                     w['stack'].pop().__exit__(Boom, e, None)
                 elif k == 'closeall':
+                    # like leaving nested with-blocks: an exception raised by an inner exit travels through the outer ones
+                    err = None
                     while w['stack']:
-                        w['stack'].pop().__exit__(None, None, None)
+                        try:
+                            w['stack'].pop().__exit__(type(err) if err else None, err, None)
+                        except BaseException as e:
+                            err = e
+                    if err is not None:
+                        raise err
                 elif k == 'src':
                     old = model['src'][op[1]]
                     model['src'][op[1]] = op[2]
@@ -271,14 +318,17 @@ class C14(Harness):
                     if expect_exc is None and exc is not None:
                         vs.append(V('legitimate-set-rejected', '%s: %r raised %r' % (ctx, op, exc), op=k, cls=op[1]))
             elif k == 'open_edit':
-                model['edit'].append(op[1])
+                if exc is None:
+                    model['edit'].append(op[1])
+                elif last and not (sl == 'slotboom' and isinstance(exc, Boom)):
+                    vs.append(V('op-raises', '%s: entering edit_constant raised %r' % (ctx, exc), op=k, slice=sl))
             elif k == 'closeall':
                 del model['edit'][:]
-                if exc is not None and last:
+                if exc is not None and last and not (sl == 'slotboom' and isinstance(exc, Boom)):
                     vs.append(V('edit-exit-raises', '%s: leaving edit_constant raised %r' % (ctx, exc), op=k))
             elif k in ('close', 'raise'):
                 model['edit'].pop()
-                if exc is not None and last:
+                if exc is not None and last and not (sl == 'slotboom' and isinstance(exc, Boom)):
                     vs.append(V('edit-exit-raises', '%s: leaving edit_constant raised %r' % (ctx, exc), op=k))
             elif exc is not None and last:
                 vs.append(V('op-raises', '%s: %r raised %r' % (ctx, op, exc), op=k, slice=sl))
